@@ -745,6 +745,13 @@ impl<'a> GeneratorState<'a> {
                     }
                 }
                 variable => {
+                    // A function that is only declared (prototype) has no variable entry
+                    if !self.compiler_state.variables.contains_key(variable) {
+                        return Err(self.compiler_state.syntax_error(
+                            &format!("{} can't be used as a value", variable),
+                            pos,
+                        ));
+                    }
                     let v = self.compiler_state.get_variable(variable);
                     let dummy = if let Expr::Nothing = **sub {
                         None
